@@ -1413,11 +1413,13 @@ func (c *Client) sendSingleMsg(client *smtp.Client, message *Msg) error {
 		}
 	}
 
+	// The option is set for every transaction, also when it is empty: the connection may have been used
+	// with a DSN return option before and must not carry it over into this transaction.
+	dsnReturnOpt := ""
 	if c.requestDSN {
-		if c.dsnReturnType != "" {
-			client.SetDSNMailReturnOption(string(c.dsnReturnType))
-		}
+		dsnReturnOpt = string(c.dsnReturnType)
 	}
+	client.SetDSNMailReturnOption(dsnReturnOpt)
 	if err = client.Mail(quoteLocalPart(from)); err != nil {
 		retError := &SendError{
 			Reason: ErrSMTPMailFrom, errlist: []error{err}, isTemp: isTempError(err),
